@@ -494,6 +494,9 @@ func (g *goCompiler) compileCall(e *CExpr, old bool, bound map[string]gval) gval
 	case "ifloor":
 		need(1)
 		return gval{code: "int(math.Floor(" + fl(0) + "))", k: kInt}
+	case "iceil":
+		need(1)
+		return gval{code: "int(math.Ceil(" + fl(0) + "))", k: kInt}
 	case "min", "max":
 		need(2)
 		a, b := arg(0), arg(1)
